@@ -48,7 +48,7 @@ INF = float("inf")
 
 # gdms: small step, strong momentum - the step length GROWS during the first iterations (used with x_tol "xfirst")
 GD_VARIANTS = {"gd": {"step": 0.5, "gamma": 0.0}, "gdm": {"step": 0.3, "gamma": 0.5},
-               "gdms": {"step": 1e-3, "gamma": 0.9}}
+               "gdms": {"step": 1e-3, "gamma": 0.9}, "gdbig": {"step": None, "gamma": 0.0}}
 ADAM_OPTS = {"step": 0.05, "beta1": 0.9, "beta2": 0.999, "eps": 1e-8}
 
 
@@ -156,6 +156,17 @@ def cases(tier, seed):
                             "line_search": (True if method in RF_METHODS else None), "feat_ndims": fnd,
                             "family": fam, "dtype": "float64", "n": n, "shape": kind, "guess": guess, "f_tol": ft,
                             "x_tol": xt, "maxiter": "gen", "plane": 0, "seed": 0, "spell": spell})
+    # overshooting steps on short runs (1, 2, 3 iterations): a silent return must not be worse than the guess
+    for (method, variant) in (("gd", "gdbig"), ("adam", "adambig")):
+        for family in MIN_FAMILIES:
+            for (n, kind) in ((2, "2n"), (5, "n")):
+                for guess in ("zero", "far"):
+                    for (ft, xt) in _tols("float64", "opt")[:3]:
+                        for mi in (1, 2, 3):
+                            out.append({"functional": "minimize", "method": method, "variant": variant,
+                                        "alpha": None, "line_search": None, "feat_ndims": None, "family": family,
+                                        "dtype": "float64", "n": n, "shape": kind, "guess": guess, "f_tol": ft,
+                                        "x_tol": xt, "maxiter": mi, "plane": 0, "seed": 0})
     # canonical order: simplest first
     out.sort(key=lambda c: (c["plane"], c["n"], c["shape"], c["dtype"] != "float64"))
     return out
@@ -209,9 +220,15 @@ def _build_call(cfg, prob, log):
     elif method == "gd":
         mi = GEN_MAXITER["gd"] if cfg["maxiter"] == "gen" else int(cfg["maxiter"])
         opts.update(f_tol=ft, x_tol=xt, f_rtol=0.0, x_rtol=0.0, maxiter=mi, **GD_VARIANTS[cfg["variant"]])
+        if cfg["variant"] == "gdbig":
+            # overshooting step (> 2 / L whatever the curvature): every step INCREASES the objective, so the
+            # only admissible silent return of a short run is a point that is not worse than the initial guess
+            opts["step"] = 3.0 / prob.mu()
     elif method == "adam":
         mi = GEN_MAXITER["adam"] if cfg["maxiter"] == "gen" else int(cfg["maxiter"])
         opts.update(f_tol=ft, x_tol=xt, f_rtol=0.0, x_rtol=0.0, maxiter=mi, **ADAM_OPTS)
+        if cfg["variant"] == "adambig":
+            opts["step"] = 5.0
     fun = {"rootfinder": rootfinder, "equilibrium": equilibrium, "minimize": minimize}[functional]
     return fun, spy, opts, resid, ft, xt
 
@@ -336,7 +353,7 @@ def run_case(cfg):
         # gd / adam
         step = opts["step"]
         mu, L = prob.mu(), prob.lip()
-        if method == "gd" and opts["gamma"] == 0.0:
+        if method == "gd" and opts["gamma"] == 0.0 and step * L < 2.0:
             b = 0.0
             cands = []
             if xt > 0:
